@@ -500,3 +500,6 @@ func logicNest(r *Rand, d int) *GT {
 		return gop(pick(r, eqNames), ch[0], ch[1])
 	}
 }
+
+// a constant of the configuration, written by its name
+func gvar2c(name string) *GT { return &GT{Kind: "var", Name: name} }
